@@ -8,7 +8,7 @@
 (* accepted; the second words with y >= j have relative length             *)
 (* (x_m + u - j)/p1: to 2^-44.                                             *)
 (***************************************************************************)
-EXTENDS Limb14, BtpeTable, H2peTable, Integers, Sequences, TLC, Json, IOUtils
+EXTENDS Limb14, BtpeTable, H2peTable, PdTable, Integers, Sequences, TLC, Json, IOUtils
 
 Rec == ndJsonDeserialize(IOEnv.TRACE)
 VARIABLE l
@@ -27,6 +27,19 @@ Rule == /\ Ev.res = "Ok"
              [] Ev.op = "h2pe1" -> LET a == HTab[Ev.case].r1[Ev.k] IN
                                    /\ Ev.accepted_at_zero /\ Ev.out = a.out
                                    /\ Near14(Ev.T, a.frac, 64 - 22)
+             \* Poisson PD (lambda >= 12), steps S / Q: after a normal deviate with floor k < l the uniform words that return k are a
+             \* suffix of relative length 1 - min((lambda - k)^3 / d, 1 - pmf(k)/hat(k)), pmf the Poisson pmf itself (2^-24 f64, 2^-15 f32)
+             [] Ev.op = "pd" -> LET a == PTab[Ev.case].ks[Ev.j] IN
+                                /\ Ev.found /\ Ev.k = a.k
+                                /\ Near14(Ev.T, a.frac, IF Ev.ft = "f64" THEN 64 - 24 ELSE 64 - 15)
+             \* steps E / H: the uniform words accepted after an exponential deviate e form an interval around the middle word with
+             \* half-lengths (pmf(k2) - hat(k2)) exp(e) / (2 c) on either side (k2 = floor(lambda + s (1.8 +- e))), clipped to [0, 1/2]
+             \* (tolerance 2^-19 / 2^-12: the paper's approximations of the pmf for k >= 10 are good to about 1e-8, and the half-length
+             \* amplifies an error of pmf - hat by exp(e) / (2 c) = 4.7 lambda exp(e))
+             [] Ev.op = "pdh" -> LET a == PTab[Ev.case].hs[Ev.h]  tol == IF Ev.ft = "f64" THEN 64 - 19 ELSE 64 - 12 IN
+                                 /\ Ev.e_ok
+                                 /\ (a.kp >= 0) => (Near14(Ev.ap, a.ap, tol) /\ (Cmp(a.ap, Pow2(tol)) > 0 => Ev.kp = a.kp))
+                                 /\ (a.km >= 0) => (Near14(Ev.am, a.am, tol) /\ (Cmp(a.am, Pow2(tol)) > 0 => Ev.km = a.km))
              [] OTHER -> FALSE
 
 TInit == l = 1
